@@ -44,6 +44,42 @@ def offsetsFrom {α} (s : Nat) : List (List α) → List Nat
 /-- the `index` array of an indexed string field holding the entries `es` -/
 def offsets {α} (es : List (List α)) : List Nat := offsetsFrom 0 es
 
+/-! ### columns and frames, independent of how they are stored -/
+
+/-- what a column holds: numbers (numeric, categorical, timestamp, fixed string fields) or byte strings (indexed strings) -/
+inductive Column where
+  | nums (xs : List Int)
+  | strs (es : List (List Nat))
+  deriving DecidableEq, Repr
+
+def Column.length : Column → Nat
+  | .nums xs => xs.length
+  | .strs es => es.length
+
+/-- `apply_filter`: defined when the filter has one flag per row -/
+def Column.filter (bs : List Bool) : Column → Option Column
+  | .nums xs => if bs.length = xs.length then some (.nums (filterBy bs xs)) else none
+  | .strs es => if bs.length = es.length then some (.strs (filterBy bs es)) else none
+
+/-- `apply_index`: defined when every subscript addresses a row -/
+def Column.gather (idx : List Int) : Column → Option Column
+  | .nums xs => (Spec.gather xs idx).map .nums
+  | .strs es => (Spec.gather es idx).map .strs
+
+/-- a column of a frame: name, the metadata `create_like` copies (type `μ`), content -/
+structure ColSpec (μ : Type) where
+  name : String
+  info : μ
+  content : Column
+
+/-- apply ONE row operation `g` to every column (this is what keeps rows aligned); undefined if it is undefined for any column -/
+def mapCols {μ} (g : Column → Option Column) : List (ColSpec μ) → Option (List (ColSpec μ))
+  | [] => some []
+  | c :: cs =>
+    match g c.content, mapCols g cs with
+    | some x, some r => some ({ c with content := x } :: r)
+    | _, _ => none
+
 /-! ### sorting: the stable permutation ordering the key tuples lexicographically -/
 
 /-- lexicographic `≤` on key tuples -/
